@@ -44,7 +44,13 @@ func (f *And) Call(s *slip.Scope, args slip.List, depth int) (result slip.Object
 	result = slip.True
 	d2 := depth + 1
 	for i := range args {
-		if result = slip.EvalArg(s, args, i, d2); result == nil {
+		if i < len(args)-1 {
+			// Only the primary value of all but the last form is used.
+			result = slip.EvalArgFirst(s, args, i, d2)
+		} else {
+			result = slip.EvalArg(s, args, i, d2)
+		}
+		if result == nil {
 			break
 		}
 	}
